@@ -389,6 +389,16 @@ def rule_u8(ctx, methods):
         for fld in fields:
             ctx.check(fld in text, "U8-field-coverage", f"{LANG}:ISLaUnparser.{name}", f"prints {fld}", site(fn),
                       f"{fld} is compared by the class's __eq__ but never written by the unparser: two different constraints unparse to the same text", "printed")
+    # indentation is added per logical line (list element), never to joined text (a match expression may contain a newline terminal)
+    for name in ("_unparse_quantified_formula", "_unparse_exists_int_formula", "_unparse_forall_int_formula"):
+        fn = fns[name]
+        ok = any(isinstance(n, ast.ListComp) and src(n) == "[self.indent + line for line in child_result]" for n in ast.walk(fn))
+        reindent = [c for c in calls_in(up) if (call_name(c) or "").endswith("textwrap.indent") or (isinstance(c.func, ast.Attribute) and c.func.attr in ("splitlines",)) or (isinstance(c.func, ast.Attribute) and c.func.attr == "split" and c.args and src(c.args[0]) in ("'\\n'",))]
+        if not ok and not reindent:
+            raise Unrecognised("C07.U8", f"{LANG}:ISLaUnparser.{name}", "indentation idiom not recognised")
+        ctx.check(ok and not reindent, "U8-indent-logical-lines", f"{LANG}:ISLaUnparser.{name}", "indent prefixed per list element", site(fn),
+                  "the body is indented by re-splitting joined text at newlines: a match expression containing a newline terminal gets the indentation injected into the terminal, "
+                  "so the unparsed constraint parses back to a different one", "each logical line gets exactly one prefix")
     # iterating ALL args in order
     for name in ("_unparse_negated_formula", "_unparse_propositional_combination"):
         fn = fns[name]
